@@ -22,7 +22,13 @@ for d in sorted(glob.glob(os.path.join(V, "seeded", "*-m*"))):
             mm = re.match(r"\s*failed obligation (\S+?):? ", l)
             if mm and mm.group(1).rstrip(":") not in obl:
                 obl.append(mm.group(1).rstrip(":"))
-        wit = "native witness" if any("native postcondition failed" in l or "reproduced" in l or "panicked" in l for l in r.get("lines", [])) and not all("no-failing-input-found" in l for l in r.get("lines", []) if l.startswith("VIOLATION")) else ("no-failing-input-found" if verdict == "VIOLATION" else "")
+        vl = [l for l in r.get("lines", []) if l.startswith("VIOLATION")]
+        wit = ""
+        if verdict == "VIOLATION":
+            wit = "failing input replayed on the real code" if any("no-failing-input-found" not in l for l in vl) else "no-failing-input-found"
+        und = [l for l in r.get("lines", []) if "undecided (" in l or l.startswith("UNDECIDED")]
+        if und and verdict == "VIOLATION" and not obl:
+            obl = ["sibling harness after the unit was undecided"]
         outs.append("%s: %s%s%s" % (p, verdict, (" — " + ", ".join("`%s`" % o for o in obl[:3])) if obl else "", (" (" + wit + ")") if wit else ""))
     note = m.get("note", "")
     rows.append("| %s | %s | %s | %s | %s |" % (name, what, "yes" if conf else "NO", "<br>".join(outs) or "not run", note))
